@@ -1,8 +1,9 @@
 (* C15/Property.v — ONLY the property theorems (each closed by a lemma of Proofs*.v) + Print Assumptions.
    Models: C15/Model.v (A: NameAuthority / graph histories, B: NameFixPass, C: rename_values). *)
 From Coq Require Import NArith List Bool Lia.
+From IRV Require Import Gen.C15Gen C15.GenEquiv.
 From IRV Require Import Base.Exn C15.Model C15.ProofsA C15.ProofsA2 C15.ProofsA3 C15.ProofsB15 C15.ProofsB C15.ProofsB2 C15.ProofsB3 C15.ProofsC C15.ProofsC2 C15.ProofsC3
-  C15.ProofsB4 C15.ProofsB5 C15.ProofsB6 C15.ProofsB7 C15.ProofsB8 C15.ProofsB9 C15.ProofsB10 C15.ProofsB11 C15.ProofsB12 C15.ProofsB13 C15.ProofsB14.
+  C15.ProofsB4 C15.ProofsB5 C15.ProofsB6 C15.ProofsB7 C15.ProofsB8 C15.ProofsB9 C15.ProofsB10 C15.ProofsB11 C15.ProofsB12 C15.ProofsB13 C15.ProofsB14 C15.ProofsB16 C15.ProofsB17.
 Import ListNotations.
 Open Scope N_scope.
 
@@ -113,6 +114,110 @@ Example ex_ctor_witness_fixed :
             g_vname g 1 = Some (val_name 1) /\ g_vname g 0 = Some (val_name 0).
 Proof. eexists. vm_compute. repeat split; reflexivity. Qed.
 
+(* ---- the hand models of the naming primitives EQUAL the per-run translation of the Python sources.
+   Gen/C15Gen.v is regenerated on every run by a fail-closed statement-by-statement ast -> Gallina translator
+   (harness/props/c15.py: translate_c15) from _name_authority.py and naming.py; these theorems are re-checked against
+   it, so an edit of one of the five functions either changes the generated definitions and breaks the equality, or
+   leaves the translatable subset and is rejected - either way a broken obligation, followed by the oracle search. *)
+Theorem C15_gen_register_value :
+  forall a o,
+  py_register_or_name_value (S (length (vnames a))) (vc a) (vnames a) o =
+  match astep a (RegV o) with
+  | None => None
+  | Some (a', s) => Some (tt, (vc a', vnames a', Some s))
+  end /\
+  (forall a' s, astep a (RegV o) = Some (a', s) -> nc a' = nc a /\ nnames a' = nnames a).
+Proof. exact py_register_or_name_value_eq. Qed.
+Print Assumptions C15_gen_register_value.
+
+Theorem C15_gen_register_node :
+  forall a op o,
+  py_register_or_name_node (S (length (nnames a))) (nc a) (nnames a) o op =
+  match astep a (RegN op o) with
+  | None => None
+  | Some (a', s) => Some (tt, (nc a', nnames a', Some s))
+  end /\
+  (forall a' s, astep a (RegN op o) = Some (a', s) -> vc a' = vc a /\ vnames a' = vnames a).
+Proof. exact py_register_or_name_node_eq. Qed.
+Print Assumptions C15_gen_register_node.
+
+Theorem C15_gen_find_and_record :
+  forall pref used cnt rsv,
+  py_find_and_record_next_unique_name (S (S (length (used ++ rsv)))) pref used cnt rsv =
+  match find_unique pref used cnt rsv with
+  | None => None
+  | Some (s, used', cnt') => Some (s, (used', cnt'))
+  end.
+Proof. exact py_find_and_record_eq. Qed.
+Print Assumptions C15_gen_find_and_record.
+
+(* the naming decision of NameFixPass for one value / one node - SimpleNameGenerator.generate_*_name,
+   _assign_*_name, _fix_duplicate_*_name behind the dispatch `if not x.name`, down to
+   _find_and_record_next_unique_name - as translated from naming.py equals GenEquiv.decide, and the hand models
+   process_value / process_node_name are exactly that decision (followed, for a value, by the hand-modelled
+   Value.name setter on the requested name) *)
+Theorem C15_gen_value_decision :
+  forall nm used cnt rsv,
+  (if is_empty nm then py_assign_value_name (S (S (length (used ++ rsv)))) nm used cnt rsv
+   else py_fix_duplicate_value_name (S (S (length (used ++ rsv)))) nm used cnt rsv) =
+  pack (decide s_v nm used cnt rsv).
+Proof. exact py_value_decision_eq. Qed.
+Print Assumptions C15_gen_value_decision.
+
+Theorem C15_gen_node_decision :
+  forall nm used cnt rsv,
+  (if is_empty nm then py_assign_node_name (S (S (length (used ++ rsv)))) nm used cnt rsv
+   else py_fix_duplicate_node_name (S (S (length (used ++ rsv)))) nm used cnt rsv) =
+  pack (decide s_node nm used cnt rsv).
+Proof. exact py_node_decision_eq. Qed.
+Print Assumptions C15_gen_node_decision.
+
+Theorem C15_gen_process_value :
+  forall v s,
+  process_value v s =
+  if memN v (f_seen s) then (s, None) else
+  match f_vscopes s with
+  | [] => (s, Some IndexError)
+  | used :: rest =>
+      match decide s_v (f_vn s v) used (f_vcnt s) (f_rv s) with
+      | None => (s, Some OtherError)
+      | Some (false, _, used', _) =>
+          (mkF (f_own s) (f_so s) (f_vx s) (f_nx s) (f_rv s) (f_rn s) (f_vn s) (f_nn s) (f_inits s) (v :: f_seen s) (f_vcnt s)
+               (f_ncnt s) (used' :: rest) (f_nscopes s) (f_mod s), None)
+      | Some (true, Some new, used', cnt') =>
+          match set_vname v new (f_vn s) (f_inits s) with
+          | Raise e =>
+              (mkF (f_own s) (f_so s) (f_vx s) (f_nx s) (f_rv s) (f_rn s) (f_vn s) (f_nn s) (f_inits s) (f_seen s) cnt'
+                   (f_ncnt s) (used' :: rest) (f_nscopes s) (f_mod s), Some e)
+          | Ok (vn', inits') =>
+              (mkF (f_own s) (f_so s) (f_vx s) (f_nx s) (f_rv s) (f_rn s) vn' (f_nn s) inits' (v :: f_seen s) cnt'
+                   (f_ncnt s) (used' :: rest) (f_nscopes s) true, None)
+          end
+      | Some (true, None, _, _) => (s, Some OtherError)
+      end
+  end.
+Proof. exact process_value_decide. Qed.
+Print Assumptions C15_gen_process_value.
+
+Theorem C15_gen_process_node_name :
+  forall m s,
+  process_node_name m s =
+  match f_nscopes s with
+  | [] => (s, Some IndexError)
+  | used :: rest =>
+      match decide s_node (f_nn s m) used (f_ncnt s) (f_rn s) with
+      | None => (s, Some OtherError)
+      | Some (false, _, used', _) =>
+          (mkF (f_own s) (f_so s) (f_vx s) (f_nx s) (f_rv s) (f_rn s) (f_vn s) (f_nn s) (f_inits s) (f_seen s) (f_vcnt s)
+               (f_ncnt s) (f_vscopes s) (used' :: rest) (f_mod s), None)
+      | Some (true, nm', used', cnt') =>
+          (mkF (f_own s) (f_so s) (f_vx s) (f_nx s) (f_rv s) (f_rn s) (f_vn s) (upd (f_nn s) m nm') (f_inits s) (f_seen s)
+               (f_vcnt s) cnt' (f_vscopes s) (used' :: rest) true, None)
+      end
+  end.
+Proof. exact process_node_name_decide. Qed.
+Print Assumptions C15_gen_process_node_name.
+
 (* ===================== (B) NameFixPass (the code after fix 25cf9b5: fresh names avoid every name that
    exists in the graph).  Hypotheses used below:
      WF0 vn inits       the part of the C01 invariant the pass relies on (clause I5): every initializer dictionary
@@ -120,11 +225,11 @@ Proof. eexists. vm_compute. repeat split; reflexivity. Qed.
                         one dictionary, graph ids are distinct;
      closed_run es inits every initializer the traversal meets belongs to a graph the traversal enters (true of
                         every valid model: function bodies are closed; needed: C15_fix_total_unclosed_refuted);
-     well_scoped es inits every value is first met in the scope of its graph or of an enclosing graph (e.g. sorted
-                        graphs whose subgraphs capture only values defined before the enclosing node) - a
-                        name-free property of the traversal (a hypothesis of this kind is needed: C15_fix_post_sibling_refuted;
-                        since fix 5fabe37 the code also handles captures from ENCLOSING graphs in any order, which
-                        well_scoped still excludes - covered by the tie, see C15_fix_post_unsorted_witness_fixed);
+     well_scoped2 ow es inits every value is first met in the scope of its graph, of an enclosing graph, or - since
+                        fix 5fabe37 - of a graph nested in its owner (a capture from an ENCLOSING graph, in any order,
+                        e.g. an unsorted graph); only captures from graphs whose scope is not open (siblings) are
+                        excluded.  A name-free property of the traversal and the ownership map `ow` = Value.graph
+                        (a hypothesis of this kind is needed: C15_fix_post_sibling_refuted);
      NoDup (ev_nodes es) no node is visited twice (no subgraph object shared by two attributes). ================ *)
 
 (* The `while` loop of _find_and_record_next_unique_name terminates: no run, over any event list from any
@@ -172,7 +277,7 @@ Print Assumptions C15_fix_total_witness_fixed.
 Theorem C15_fix_post :
   forall g ow vx nx vn nn inits m,
   WF0 vn inits -> closed_run (events_graph g) inits -> NoDup (ev_nodes (events_graph g)) ->
-  well_scoped (events_graph g) inits ->
+  well_scoped2 ow (events_graph g) inits ->
   let r := fix_graph_names g ow vx nx vn nn inits m in
   let s' := fst r in
   snd r = None /\
@@ -182,7 +287,7 @@ Theorem C15_fix_post :
      forall v w, In v (vis ++ own (dv inits) h) -> In w (vis ++ own (dv inits) h) -> v <> w -> f_vn s' v <> f_vn s' w) /\
   (forall h, sub_of g h -> forall a b, In a (own_nodes h) -> In b (own_nodes h) -> a <> b -> f_nn s' a <> f_nn s' b) /\
   WF0 (f_vn s') (f_inits s').
-Proof. exact fix_post_graph. Qed.
+Proof. exact fix_post_graph2. Qed.
 Print Assumptions C15_fix_post.
 
 (* the hypotheses are satisfiable by a nested graph with duplicated and missing names (and the unsorted witness
@@ -190,20 +295,25 @@ Print Assumptions C15_fix_post.
 Definition ex_sorted : graph :=
   Graph 0 false [0] [3] [Node 2 [Some 0] [1] []; Node 0 [Some 0] [3] [Graph 1 false [5] [2] [Node 1 [Some 1; Some 5] [2] []]];
                          Node 3 [Some 1] [4] []].
+Definition ex_sorted_own := of_alist None [(0, Some 0); (1, Some 0); (3, Some 0); (4, Some 0); (5, Some 1); (2, Some 1)].
 Example ex_sorted_hyps :
   WF0 (fun _ => Some s_x) [] /\ closed_run (events_graph ex_sorted) [] /\ NoDup (ev_nodes (events_graph ex_sorted)) /\
-  well_scoped (events_graph ex_sorted) [] /\ ~ well_scoped (events_graph wit_unsorted_graph) [].
+  well_scoped2 ex_sorted_own (events_graph ex_sorted) [] /\
+  (* the unsorted outer capture IS admitted since the hypothesis was weakened ... *)
+  well_scoped2 wit_unsorted_own (events_graph wit_unsorted_graph) [] /\
+  (* ... the sibling capture is not *)
+  ~ well_scoped2 wit_sibling_own (events_graph wit_sibling_graph) [].
 Proof.
   split; [constructor; simpl; [constructor | intros g k v [] | intros g; constructor | intros g1 g2 k1 k2 v []]|].
   split; [intros w _ g k []|].
   split; [vm_compute; repeat constructor; simpl; intuition discriminate|].
-  split; [vm_compute; reflexivity | vm_compute; discriminate].
+  split; [vm_compute; reflexivity|]. split; [vm_compute; reflexivity | vm_compute; discriminate].
 Qed.
 
 (* The unsorted outer capture that refuted C15_fix_post before fix 5fabe37 (a subgraph reads an outer value produced
    by a later node; two outputs of the outer graph kept the name y, modified = false): the captured value's name is
-   now recorded in the scope of the graph that owns it, and the later y becomes y_1.  (That witness is not
-   well_scoped: the theorem above does not cover it; the model and the tie do.) *)
+   now recorded in the scope of the graph that owns it, and the later y becomes y_1.  (That witness satisfies well_scoped2:
+   it is covered by C15_fix_post, see ex_sorted_hyps.) *)
 Theorem C15_fix_post_unsorted_witness_fixed :
   let r := name_fix_pass wit_unsorted_graph [] wit_unsorted_own (fun _ => 0) (fun _ => 0) wit_unsorted_vn wit_unsorted_nn [] in
   snd r = None /\ f_mod (fst r) = true /\
